@@ -1,22 +1,44 @@
 import PytaskModel.Generated
+import PytaskProofs.Lemmas.HashValue
 /-!
 # State of a path node whose path is a `UPath` with a protocol (`nodes._get_state`, branch `UPathStatResult`)
 
-The engine model M6 takes "state = content id" for every node. That is the local branch of `_get_state`
-(`hash_path(path, mtime)`, C12). The other branch — a `UPath` with a protocol, whose `stat()` is a
-`UPathStatResult` — returns `stat.as_info().get(upathStateKey, upathNoEtagState)`: the file system's ETag if it
-reports one, else a constant. Both facts are read from the source by the translator (`harness/extract_state.py`).
+The engine model M6 takes "state = content id" for every node. For local paths that is justified by the local branch of
+`_get_state` (`hash_path(path, mtime)`, C12: `stateOfFile`). A `UPath` with a protocol, whose `stat()` is a
+`UPathStatResult`, takes the other branch: the file system's ETag if it reports one, else — since the repair of finding F61 —
+`hash_path(path, stat.st_mtime)` again, i.e. the same memoised content hash as for local paths. Which of the two the code does
+is read from the source by the translator (`harness/extract_state.py`: `Generated.upathNoEtagKind`).
 -/
-namespace Pytask
+namespace Pytask.Hash
 
-/-- What the file system tells about a file: its ETag (if it has such a notion) — next to the content id and the
-modification time, which this branch does not look at. -/
-structure UFile where
-  etag : Option String
-  content : Nat
-  mtime : Nat
+section
+variable (sha md5 : Bytes → Str)
 
-/-- `_get_state` on an existing protocol-UPath. -/
-def upathState (f : UFile) : String := f.etag.getD Generated.upathNoEtagState
+/-- `_get_state` on a protocol-UPath. `file = none`: `stat()` raises `FileNotFoundError`; `some (etag, h, c)`: the file system's
+ETag for the file (if it has such a notion), `hash(st_mtime) = h`, and the bytes `c`. -/
+def upathStateOf (memo : Memo) (path : Str) (file : Option (Option Str × Int × Bytes)) : Memo × Option Str :=
+  match file with
+  | none => (memo, none)
+  | some (some etag, _, _) => (memo, some etag)
+  | some (none, mh, c) =>
+    if Generated.upathNoEtagKind = "hashPathMtime" then stateOfFile sha md5 memo path (some (mh, c))
+    else (memo, some Generated.upathNoEtagConst.toList)
 
-end Pytask
+/-- Without ETag the state is the one of a local file: the memoised content hash. -/
+theorem upathStateOf_noEtag (memo : Memo) (p : Str) (mh : Int) (c : Bytes) :
+    upathStateOf sha md5 memo p (some (none, mh, c)) = stateOfFile sha md5 memo p (some (mh, c)) := by
+  unfold upathStateOf
+  simp only [show (Generated.upathNoEtagKind = "hashPathMtime") = True from by decide, if_true]
+
+/-- the local-file lemma (C12 `state_content_partial`): with a coherent memo the state is the digest of the current bytes -/
+theorem stateOfFile_coherent (memo : Memo) (W : World) (hc : MemoCoherent sha md5 memo W)
+    (p : Str) (mh : Int) (c : Bytes) (hp : W p = some (mh, c)) :
+    (stateOfFile sha md5 memo p (some (mh, c))).2 = some (sha c) := by
+  rw [stateOfFile_some]
+  cases hg : memo.get (memoKey sha md5 p mh) with
+  | none => rfl
+  | some v => simp only; rw [hc p mh c v hp hg]
+
+end
+
+end Pytask.Hash
